@@ -198,6 +198,8 @@ pub struct Project {
     pub op_models: Vec<(String, ExecDoc)>,
     /// the schema is given as one introspection result (JSON) instead of SDL files
     pub schema_is_json: bool,
+    /// the `documents` globs of the configuration (one of them may point outside the project directory)
+    pub doc_globs: Vec<String>,
 }
 
 /// the same project with its SDL schema files replaced by one introspection JSON file (what a server would answer)
@@ -214,8 +216,8 @@ pub fn introspection_variant(proj: &Project, rng: &mut Rng) -> Project {
     let sp = format!("{}/schema/introspection.json", proj.root);
     files.push((sp.clone(), text));
     let cfg_path = proj.files.iter().find(|(p, _)| is_cfg(p)).map(|(p, _)| p.clone()).unwrap_or_else(|| format!("{}/graphql.config.yaml", proj.root));
-    files.push((cfg_path, proj.config.render(&["./schema/introspection.json".to_string()], &["./ops/**/*.graphql".to_string(), "./shared/*.graphql".to_string()])));
-    Project { files, root: proj.root.clone(), schema_paths: vec![sp], op_paths: proj.op_paths.clone(), config: proj.config.clone(), schema_model: proj.schema_model.clone(), op_models: proj.op_models.clone(), schema_is_json: true }
+    files.push((cfg_path, proj.config.render(&["./schema/introspection.json".to_string()], &proj.doc_globs)));
+    Project { files, root: proj.root.clone(), schema_paths: vec![sp], op_paths: proj.op_paths.clone(), config: proj.config.clone(), schema_model: proj.schema_model.clone(), op_models: proj.op_models.clone(), schema_is_json: true, doc_globs: proj.doc_globs.clone() }
 }
 
 pub struct ProjOpts {
@@ -328,7 +330,14 @@ pub fn gen_project(rng: &mut Rng, po: &ProjOpts) -> Option<Project> {
         files.push((p, text));
     }
     // operation files: the split document plus possibly a second independent document
-    let mut op_models: Vec<(String, ExecDoc)> = split_into_files(&doc, rng).into_iter().map(|(p, d)| (format!("{root}/{p}"), d)).collect();
+    // one layout keeps the shared fragment file in a sibling directory of the project: a `documents` glob with `..`
+    let outside = po.layouts && rng.chance(1, 5);
+    let doc_globs: Vec<String> = if outside { vec!["./ops/**/*.graphql".to_string(), "../outside/*.graphql".to_string()] } else { vec!["./ops/**/*.graphql".to_string(), "./shared/*.graphql".to_string()] };
+    let mut op_models: Vec<(String, ExecDoc)> = if outside {
+        crate::gen_ops::split_into_files_at(&doc, rng, "app/ops/main.graphql", ["app/ops/frag_a.graphql", "app/ops/sub/frag_b.graphql", "outside/frag_c.graphql"])
+    } else {
+        split_into_files(&doc, rng).into_iter().map(|(p, d)| (format!("{root}/{p}"), d)).collect()
+    };
     if rng.chance(1, 3) {
         if let Some(d2) = gen_valid_doc(rng, &ix, &OpOpts { fragments: false, max_ops: 1, ..OpOpts::standard() }) {
             op_models.push((format!("{root}/ops/other.graphql"), d2));
@@ -350,7 +359,7 @@ pub fn gen_project(rng: &mut Rng, po: &ProjOpts) -> Option<Project> {
         }
         c
     };
-    let cfg_text = config.render(&["./schema/**/*.graphql".to_string(), "./schema/*.graphqls".to_string()], &["./ops/**/*.graphql".to_string(), "./shared/*.graphql".to_string()]);
+    let cfg_text = config.render(&["./schema/**/*.graphql".to_string(), "./schema/*.graphqls".to_string()], &doc_globs);
     files.push((format!("{root}/{}", if config.json_format { "graphql.config.json" } else { "graphql.config.yaml" }), cfg_text));
-    Some(Project { files, root, schema_paths, op_paths, config, schema_model: shaped, op_models, schema_is_json: false })
+    Some(Project { files, root, schema_paths, op_paths, config, schema_model: shaped, op_models, schema_is_json: false, doc_globs })
 }
